@@ -1207,16 +1207,27 @@ impl<R: std::io::BufRead> FlacStreamReader<R> {
             // either gotten the first half of the frame sync,
             // or have reached EOF
 
+            // peek at the next byte, retrying if interrupted
+            // (starting over would skip past the half of the sync code
+            // that has already been consumed)
+            let next_byte = loop {
+                match self.reader.fill_buf() {
+                    Ok(buf) => break buf.first().copied(),
+                    Err(ref e) if e.kind() == std::io::ErrorKind::Interrupted => continue,
+                    Err(e) => return Err(e.into()),
+                }
+            };
+
             // check that the next byte is the other half of a frame sync
-            match self.reader.fill_buf() {
-                Ok([]) => {
+            match next_byte {
+                None => {
                     return Err(std::io::Error::new(
                         std::io::ErrorKind::UnexpectedEof,
                         "eof looking for frame sync",
                     )
                     .into());
                 }
-                Ok([byte, ..]) if byte >> 1 == 0b1111100 => {
+                Some(byte) if byte >> 1 == 0b1111100 => {
                     // got a whole frame sync
                     // so try to parse a whole frame header
                     let mut crc_reader: CrcReader<_, Crc16> = CrcReader::new(
@@ -1227,11 +1238,9 @@ impl<R: std::io::BufRead> FlacStreamReader<R> {
                         break (header, crc_reader);
                     }
                 }
-                Ok(_) => continue,
                 // didn't get the other half of frame sync,
                 // so continue without consuming anything
-                Err(ref e) if e.kind() == std::io::ErrorKind::Interrupted => continue,
-                Err(e) => return Err(e.into()),
+                Some(_) => continue,
             }
         };
 
